@@ -481,18 +481,19 @@ Qed.
 (* updates that leave value, size and delFuncs of every node alone *)
 Lemma LInv_upd_same nodes lg nv nn nd closed x f :
   LInv nodes lg nv nn nd closed -> pres f ->
-  (forall n, n_val (f n) = n_val n /\ n_dels (f n) = n_dels n /\ (n_val n <> None -> n_size (f n) = n_size n)) ->
+  (forall n, In n nodes -> n_id n = x ->
+     n_val (f n) = n_val n /\ n_dels (f n) = n_dels n /\ (n_val n <> None -> n_size (f n) = n_size n)) ->
   LInv (upd_id x f nodes) lg nv nn nd closed.
 Proof.
   intros [VL VI FL FF CF C1 N1 CN VD DF DN DI DR DL DRF DA DG] Hf Hs.
   assert (forall m, In m (upd_id x f nodes) -> exists m0, In m0 nodes /\ n_id m = n_id m0 /\
             n_val m = n_val m0 /\ (n_val m0 <> None -> n_size m = n_size m0) /\ n_dels m = n_dels m0) as Back.
   { intros m Hm. apply in_upd in Hm. destruct Hm as (m0 & Hm0 & ->). exists m0. split; auto.
-    destruct (n_id m0 =? x); auto. destruct (Hs m0) as (a & b & c). destruct (Hf m0) as (i & _). auto. }
+    destruct (N.eqb_spec (n_id m0) x) as [e|ne]; auto. destruct (Hs m0 Hm0 e) as (a & b & c). destruct (Hf m0) as (i & _). auto. }
   assert (forall m0, In m0 nodes -> exists m, In m (upd_id x f nodes) /\ n_id m = n_id m0 /\
             n_val m = n_val m0 /\ n_dels m = n_dels m0) as Forth.
   { intros m0 Hm0. exists (if n_id m0 =? x then f m0 else m0). split; [apply in_upd; eauto|].
-    destruct (n_id m0 =? x); auto. destruct (Hs m0) as (a & b & c). destruct (Hf m0) as (i & _). auto. }
+    destruct (N.eqb_spec (n_id m0) x) as [e|ne]; auto. destruct (Hs m0 Hm0 e) as (a & b & c). destruct (Hf m0) as (i & _). auto. }
   split; auto.
   - intros m v Hm Hv. destruct (Back m Hm) as (m0 & H0 & i & a & b & c). rewrite i, b by congruence. apply VL; congruence.
   - intros m m' v Hm Hm' Hv Hv'. destruct (Back m Hm) as (m0 & H0 & i & a & b & c).
